@@ -81,3 +81,14 @@ Example C16_witness_agree :
               OStep (OModify 2 [MAdd 0 1]) 3 (absS (fst (step false ws (ODelete 0)))) 0] in
   agree c = true /\ agree_gen false c = true /\ pcheck c = true /\ known c = false /\ prefix_class c = false.
 Proof. vm_compute. repeat split; reflexivity. Qed.
+
+(* claim maps: client c5 maps group g3 under the claim names ca and cc (attributes 10 and 12) and g2
+   under cb; deleting g3 takes it out of EVERY claim name, g2 stays *)
+Example C16_witness_claim_map :
+  let s := fst (step true ws (OModify 5 [MAdd 10 3; MAdd 12 3; MAdd 11 2])) in
+  snd (step true ws (OModify 5 [MAdd 10 3; MAdd 12 3; MAdd 11 2])) = 0
+  /\ invb s = true
+  /\ erefs (nth 5 (fst (step true s (ODelete 3))) (mkent 9 9 Gone [] None))
+     = [(11, [2]); (12, []); (10, []); (3, [2]); (4, [])]
+  /\ invb (fst (step true s (ODelete 3))) = true.
+Proof. vm_compute. repeat split; reflexivity. Qed.
